@@ -3,7 +3,7 @@
 # Runs TLC with a private metadir and tmpdir under /verif/out (nothing under /tmp).
 T=$1; shift
 NAME=$1; shift
-ROOT=/verif/out/tlc
+ROOT=${VERIF_ROOT:-/verif}/out/tlc
 mkdir -p $ROOT/$NAME $ROOT/tmp-$NAME
 JAR=/opt/veriftools/tla/tla2tools.jar
 CM=/opt/veriftools/tla/CommunityModules-deps.jar
